@@ -925,6 +925,17 @@ func (g *GoFakeS3) putMultipartUploadPart(bucket, object string, uploadID Upload
 
 	defer r.Body.Close()
 	var rdr io.Reader = r.Body
+	partSize := r.ContentLength
+
+	// Like an object, a part may be sent with the aws-chunked framing:
+	if r.Header.Get("X-Amz-Content-Sha256") == "STREAMING-AWS4-HMAC-SHA256-PAYLOAD" {
+		rdr = newChunkedReader(rdr)
+		decodedLength := r.Header.Get("X-Amz-Decoded-Content-Length")
+		partSize, err = strconv.ParseInt(decodedLength, 10, 64)
+		if err != nil || partSize < 0 {
+			return ErrorInvalidArgument("X-Amz-Decoded-Content-Length", decodedLength, "expected the length of the decoded part")
+		}
+	}
 
 	if g.integrityCheck {
 		md5Base64 := r.Header.Get("Content-MD5")
@@ -941,7 +952,7 @@ func (g *GoFakeS3) putMultipartUploadPart(bucket, object string, uploadID Upload
 		}
 	}
 
-	etag, err := g.uploader.UploadPart(bucket, object, uploadID, int(partNumber), r.ContentLength, rdr)
+	etag, err := g.uploader.UploadPart(bucket, object, uploadID, int(partNumber), partSize, rdr)
 	if err != nil {
 		return err
 	}
